@@ -15,6 +15,7 @@
    as-found behaviour is kept as *_unfixed definitions and refuted below. *)
 From Coq Require Import ZArith Bool List String Reals QArith.
 From V Require Import Base.FieldSig Base.ExecQ Model.Layered Proofs.Layered Proofs.LayeredMerge.
+From V Require Import Model.LayeredAsm Proofs.LayeredAsm.
 Import ListNotations.
 Local Open Scope Z_scope.
 
@@ -135,6 +136,97 @@ Section Responses.
 End Responses.
 
 Print Assumptions layered_is_bipole_of_layers.
+
+(* ---- clause: WHICH slot holds WHICH response (result assembly) --------------
+   Model/LayeredAsm.v: the imperative assembly of layered() (pre-allocated NaN array, enumerate
+   index carried through `continue`, mask looked up by receiver LABEL, boolean-mask assignment
+   into row i) and of _compute_1d (has_data, one layered() call per source).  [resp k fs] is
+   the 1D reference response for the receiver with label k (oracle; pointwise in frequency).
+   For EVERY list of receiver labels, EVERY mask (dataless receivers first / in the middle /
+   last / several in a row / all but one / none), any number of receivers and frequencies. *)
+Section Assembly.
+  Variable D A : Type.
+  Variable freqs : list A.
+  Variable resp : string -> list A -> list D.
+  Variable resp1 : string -> A -> D.
+  Hypothesis resp_pointwise : forall k fs, resp k fs = map (resp1 k) fs.
+
+  (* observed = flags (nrec x nfreq) carried under the receivers' own labels: row r of the
+     output holds the reference response of receiver r at exactly the finite entries of
+     row r of the flags, NaN elsewhere *)
+  Theorem layered_rows_by_position (keys : list string) (masks : list (list bool)) :
+    NoDup keys -> List.length masks = List.length keys ->
+    (forall r, (r < List.length keys)%nat -> List.length (nth r masks []) = List.length freqs) ->
+    let out := assemble D A freqs resp keys (Some (combine keys masks)) in
+    List.length out = List.length keys /\
+    forall r k j d, nth_error keys r = Some k -> (j < List.length freqs)%nat ->
+      nth j (nth r out []) None =
+      if nth j (nth r masks []) false then Some (resp1 k (nth j freqs d)) else None.
+  Proof. exact (assemble_by_position D A freqs resp resp1 resp_pointwise keys masks). Qed.
+
+  (* the same with the mask looked up by label in ANY observed table *)
+  Theorem layered_rows_by_label (keys : list string) observed :
+    (forall k, In k keys -> List.length (mask_for A freqs observed k) = List.length freqs) ->
+    List.length (assemble D A freqs resp keys observed) = List.length keys /\
+    forall r k j d, nth_error keys r = Some k -> (j < List.length freqs)%nat ->
+      nth j (nth r (assemble D A freqs resp keys observed) []) None =
+      if nth j (mask_for A freqs observed k) false then Some (resp1 k (nth j freqs d)) else None.
+  Proof. exact (assemble_spec D A freqs resp resp1 resp_pointwise keys observed). Qed.
+
+  (* no observed data: every slot is computed *)
+  Theorem layered_rows_without_observed (keys : list string) :
+    let out := assemble D A freqs resp keys None in
+    List.length out = List.length keys /\
+    forall r k j d, nth_error keys r = Some k -> (j < List.length freqs)%nat ->
+      nth j (nth r out []) None = Some (resp1 k (nth j freqs d)).
+  Proof. exact (assemble_no_observed D A freqs resp resp1 resp_pointwise keys). Qed.
+End Assembly.
+Print Assumptions layered_rows_by_position.
+Print Assumptions layered_rows_by_label.
+Print Assumptions layered_rows_without_observed.
+
+(* _compute_1d over all sources: slot (source si, receiver r, frequency j) holds the reference
+   response of exactly that source / receiver label / frequency iff its observed datum is
+   finite -- or there is no finite observed datum in the whole survey -- and NaN otherwise *)
+Section AllSources.
+  Variable D A : Type.
+  Variable freqs : list A.
+  Variable resp : string -> string -> list A -> list D.
+  Variable resp1 : string -> string -> A -> D.
+  Hypothesis resp_pointwise : forall s k fs, resp s k fs = map (resp1 s k) fs.
+  Theorem compute_1d_slots srcs keys (flags : list (list (list bool))) :
+    NoDup srcs -> NoDup keys -> List.length flags = List.length srcs ->
+    (forall si, (si < List.length srcs)%nat -> List.length (nth si flags []) = List.length keys) ->
+    (forall si r, (si < List.length srcs)%nat -> (r < List.length keys)%nat ->
+                  List.length (nth r (nth si flags []) []) = List.length freqs) ->
+    let obs := combine srcs (map (combine keys) flags) in
+    let out := compute_1d D A freqs resp srcs keys obs in
+    List.length out = List.length srcs /\
+    forall si s r k j d, nth_error srcs si = Some s -> nth_error keys r = Some k ->
+      (j < List.length freqs)%nat ->
+      List.length (nth si out []) = List.length keys /\
+      nth j (nth r (nth si out []) []) None =
+      if (negb (has_data obs) || nth j (nth r (nth si flags []) []) false)%bool
+      then Some (resp1 s k (nth j freqs d)) else None.
+  Proof. exact (compute_1d_spec D A freqs resp resp1 resp_pointwise srcs keys flags). Qed.
+End AllSources.
+Print Assumptions compute_1d_slots.
+
+(* non-vacuity, and the variant the theorems exclude: receivers a, b, c with a dataless, b
+   finite at the second frequency only, c at both.  The code's assembly leaves row 0 NaN; the
+   variant that filters dataless receivers out first and uses the index of the FILTERED list
+   as the row moves b and c one row up (and so contradicts layered_rows_by_position). *)
+Theorem assemble_filtered_refuted :
+  let keys := ["a"; "b"; "c"]%string in
+  let obs := Some (combine keys [[false; false]; [false; true]; [true; true]]) in
+  assemble _ _ [10; 20]%nat tok keys obs =
+    [[None; None]; [None; Some ("b"%string, 20%nat)];
+     [Some ("c"%string, 10%nat); Some ("c"%string, 20%nat)]] /\
+  assemble_filtered _ _ [10; 20]%nat tok keys obs =
+    [[None; Some ("b"%string, 20%nat)]; [Some ("c"%string, 10%nat); Some ("c"%string, 20%nat)];
+     [None; None]].
+Proof. exact assemble_filtered_witness. Qed.
+Print Assumptions assemble_filtered_refuted.
 
 (* ---- clause: the finite-difference gradient summed over a layer ----------- *)
 Section GradientQuotient.
